@@ -22,6 +22,9 @@ import Thanos.Model.Postings
     st.series <kind> <blocks> <mint> <maxt> <matchers> <without> <skip>
     st.names  <kind> <blocks> <start> <end> <matchers> <without>
     st.values <kind> <blocks> <start> <end> <matchers> <without> <label>
+    px.series <blocks> <mint> <maxt> <matchers> <without> <skip>     the same three calls through a ProxyStore in front of
+    px.names  <blocks> <start> <end> <matchers> <without>            the TSDB store of the first block and the store
+    px.values <blocks> <start> <end> <matchers> <without> <label>    gateway of all blocks
 
   C09
     lim.seq <limit> <n,n,…>        -> `<1|0,…> failed=<0|1>`
@@ -164,6 +167,25 @@ def handleValues (kind blocks mint maxt matchers without label : String) : Strin
     | _, _ => "bad-op"
   | _, _, _ => "bad-op"
 
+def handleProxy (op blocks mint maxt matchers without : String) (last : String) : String :=
+  match parseSpecBlocks blocks, parseReq mint maxt matchers without (op == "px.series" && last == "1") with
+  | some bs, some r =>
+    let cs := StoreSpec.standardClients bs
+    if cs.isEmpty then "bad-op" else
+    match op with
+    | "px.series" =>
+      match StoreSpec.proxySeries cs r with
+      | .ok es => "ok " ++ showSeries r.skipChunks es
+      | .invalid => "invalid"
+      | .aborted => "aborted"
+    | "px.names" => "ok " ++ showNats "," (StoreSpec.proxyLabelNames cs r)
+    | "px.values" =>
+      match parseNat? last with
+      | some l => if l = 0 then "invalid" else "ok " ++ showNats "," (StoreSpec.proxyLabelValues cs r l)
+      | none => "bad-op"
+    | _ => "bad-op"
+  | _, _ => "bad-op"
+
 /-- the value of `key<digits>` in a `+`-separated configuration, 0 when absent -/
 def cfgNat (key : String) (kind : String) : Nat :=
   ((splitChar '+' kind).filterMap fun t =>
@@ -266,6 +288,9 @@ def handle : List String → String
     handleLimits kind blocks mint maxt matchers without skip
   | ["st.series", kind, blocks, mint, maxt, matchers, without, skip] =>
     handleSeries kind blocks mint maxt matchers without skip
+  | ["px.series", blocks, mint, maxt, matchers, without, skip] => handleProxy "px.series" blocks mint maxt matchers without skip
+  | ["px.names", blocks, mint, maxt, matchers, without] => handleProxy "px.names" blocks mint maxt matchers without ""
+  | ["px.values", blocks, mint, maxt, matchers, without, label] => handleProxy "px.values" blocks mint maxt matchers without label
   | ["st.names", kind, blocks, mint, maxt, matchers, without] =>
     handleNames kind blocks mint maxt matchers without
   | ["st.values", kind, blocks, mint, maxt, matchers, without, label] =>
